@@ -357,7 +357,7 @@ impl Parse for ConversionsAttribute {
                 convs.consider_fields_ty = true;
             }
 
-            if input.peek(token::Comma) {
+            if !input.is_empty() {
                 let comma = input.parse::<token::Comma>()?;
                 if !convs.tys.empty_or_trailing() {
                     convs.tys.push_punct(comma);
@@ -395,7 +395,7 @@ impl Parse for ConversionsAttribute {
                     let _ = top_level_type.get_or_insert_with(|| ty.clone());
                     out.owned.tys.push_value(ty);
 
-                    if input.peek(token::Comma) {
+                    if !input.is_empty() {
                         out.owned.tys.push_punct(input.parse::<token::Comma>()?)
                     }
                 }
